@@ -352,6 +352,26 @@ theorem verdict_err {l : Limits} {k : Kind} : ∀ rs : List Req, verdict l rs = 
       simp at h
       exact ⟨r, List.mem_cons_self .., h, by simpa using hr⟩
 
+theorem verdict_append (l : Limits) : ∀ a b : List Req,
+    verdict l (a ++ b) = match verdict l a with | .ok => verdict l b | .err k => .err k := by
+  intro a b
+  induction a with
+  | nil => simp [verdict]
+  | cons r a ih =>
+    simp only [List.cons_append, verdict]
+    by_cases h : r.ok l = true
+    · simp [h, ih]
+    · simp [h]
+
+theorem verdict_skip (l : Limits) (x y : List Req) (hx : verdict l x = .ok) : verdict l (x ++ y) = verdict l y := by
+  rw [verdict_append, hx]
+
+theorem verdict_ok_left (l : Limits) (x y : List Req) (h : verdict l (x ++ y) = .ok) : verdict l x = .ok := by
+  rw [verdict_append] at h
+  cases hx : verdict l x with
+  | ok => rfl
+  | err k => rw [hx] at h; cases h
+
 theorem within_mono {l : Limits} {k : Kind} {a b : Nat} (hab : a ≤ b) (h : within l k b) : within l k a := by
   cases k <;> simp only [within] at h ⊢ <;> omega
 
